@@ -240,6 +240,17 @@ func ruleKeys(c *Ctx) {
 					b.condFromScan(iff.Cond, ins.base, ins.key, 0, map[ssa.Value]bool{}, info)
 				}
 			}
+			if !info.found && commaOkAbsent(ap.ins.Block(), ins.base, ins.key) {
+				// the member map is asked, with comma-ok: keys and obj hold the same names (what the
+				// other obligations of this rule keep true, for objects without duplicate names),
+				// so the map's answer is the scan's
+				if !pd.postDominates(ins.ins.Block(), ap.ins.Block()) && ins.ins.Block() != ap.ins.Block() && !ins.ins.Block().Dominates(ap.ins.Block()) {
+					l.add("R-KEYS", "v5", key, b.posOf(ap.ins), Violated, "the append to keys can happen without the insert into obj (a member would be emitted as null although it was never set)", true)
+					continue
+				}
+				l.add("R-KEYS", "v5", key, b.posOf(ins.ins), Discharged, "append(keys, k) for the same SSA key at "+b.posOf(ap.ins)+", taken only when the comma-ok lookup of k in this object's member map says absent (keys and obj name the same members); the insert goes with the append", true)
+				continue
+			}
 			switch {
 			case !info.found:
 				l.add("R-KEYS", "v5", key, b.posOf(ap.ins), Violated, "the append to keys is not guarded by a scan of keys for this key (presence decided some other way, e.g. from the map value, which cannot tell an absent member from a null one): a member can be listed twice or moved", true)
@@ -1333,4 +1344,26 @@ func (b *Body) isKeyIndexCall(call *ssa.Call, base, k ssa.Value) bool {
 		nFound++
 	}
 	return nFound > 0
+}
+
+// commaOkAbsent: blk is reached only on the `absent` outcome of a comma-ok lookup of key in the
+// member map of base.
+func commaOkAbsent(blk *ssa.BasicBlock, base, key ssa.Value) bool {
+	for _, f := range dominatingFacts(blk) {
+		if f.True {
+			continue
+		}
+		ex, ok := f.V.(*ssa.Extract)
+		if !ok || ex.Index != 1 {
+			continue
+		}
+		lk, ok := ex.Tuple.(*ssa.Lookup)
+		if !ok || !lk.CommaOk || lk.Index != key {
+			continue
+		}
+		if b0, ok := pdLoad(lk.X, "obj"); ok && sameBase(b0, base) {
+			return true
+		}
+	}
+	return false
 }
